@@ -293,6 +293,24 @@ def c11_lengths(_):
         got = rd(getattr(r, rn), data)
         if got[0] != "exc" or not isinstance(got[1], UnexpectedNull):
             bad(acc, "length-prefixed", f"{rn}/null-form-not-rejected", rn, {"bytes": data}, "UnexpectedNull", repr(got[1:])[:100], (n,))
+    # a negative legacy length other than -1 (null) is not the encoding of any value: must be rejected, and the
+    # bytes that follow must not be swallowed as the value
+    for rn, width in (("read_legacy_string", 2), ("read_nullable_legacy_string", 2), ("read_legacy_bytes", 4), ("read_nullable_legacy_bytes", 4)):
+        for neg in (-2, -3, -128, -(2 ** (8 * width - 1))):
+            acc.add("evaluations")
+            n += 1
+            data = neg.to_bytes(width, "big", signed=True) + b"next-field"
+            got = rd(getattr(r, rn), data)
+            if got[0] != "exc":
+                bad(acc, "length-prefixed", f"{rn}/negative-length-accepted", rn, {"bytes": data}, "rejected", repr(got[1:])[:100], (n, neg))
+            else:
+                acc.outcome("negative length rejected")
+    for rn in ("read_compact_string", "read_compact_string_nullable", "read_compact_string_as_bytes", "read_compact_string_as_bytes_nullable"):
+        # a compact length larger than what follows is an underflow, never a shorter value
+        acc.add("evaluations")
+        got = rd(getattr(r, rn), b"\x0a" + b"short")
+        if got[0] != "exc":
+            bad(acc, "length-prefixed", f"{rn}/short-payload-accepted", rn, {"bytes": b"\x0ashort"}, "BufferUnderflow", repr(got[1:])[:100], (n,))
     # length-limited writers: out of domain raises and writes nothing
     for name_w, value in (("write_legacy_string", "a" * 32768), ("write_nullable_legacy_string", "a" * 32768),
                           ("write_legacy_string", "é" * 16384), ("write_nullable_legacy_string", "a" * 70000)):
